@@ -175,6 +175,32 @@ class Flaky(Stateless):
         return res
 
 
+class FlakyOnce(Stateless):
+    """Stateless actor whose FIRST application in the whole run fails with an I/O error - whichever instance it is (the
+    marker file remembers; a new instance built for a second attempt would succeed)."""
+
+    def __init__(self, label, szout=1, marker=None, **params):
+        super().__init__(label, szout, **params)
+        self._marker = marker
+
+    def apply(self, *xs):
+        import os
+        try:
+            os.close(os.open(self._marker, os.O_WRONLY | os.O_CREAT | os.O_EXCL))
+        except FileExistsError:
+            with open(self._marker, 'a') as fh:        # every further application leaves a mark
+                fh.write('x')
+            return super().apply(*xs)
+        raise OSError('transient fault')
+
+    def get_params(self):
+        return {**super().get_params(), 'marker': self._marker}
+
+    def set_params(self, **params):
+        self._marker = params.pop('marker', self._marker)
+        super().set_params(**params)
+
+
 class FlakySource(Flaky):
     def apply(self, *xs):
         return super().apply()
